@@ -50,8 +50,10 @@ def classify(c, r):
         return f"int{t[2]} {t[3]} pat{t[4]} -> {r.split(' ')[0]}"
     if t[0] == "sup":
         return "sup"
+    if t[0] == "q32":
+        return f"q32 {t[1]} -> {r.split(' ')[0]}"
     return f"{t[0]} {t[2]} -> {r.split(' ')[0]}"
 
 
 def nontrivial(c, r):
-    return r.startswith("ok ") or r.startswith("sup ")
+    return r.startswith("ok ") or r.startswith("sup ") or r.startswith("q ")
